@@ -153,6 +153,9 @@ func (c *verifConn) Read(p []byte) (int, error) {
 
 func (c *verifConn) Close() error {
 	c.closeCalls++
+	if c.slow && !c.closed {
+		verifYieldTag("close") // closing takes time: other goroutines may still write meanwhile
+	}
 	c.closed = true
 	if c.onClose != nil && c.closeCalls == 1 {
 		c.onClose()
